@@ -48,6 +48,7 @@ def cases(tier, seed):
             cfg["maxiter"] = int(gen.pick(rng, [60, 150]))
         if i % 4 == 1:
             cfg["max_steplength"] = float(gen.pick(rng, [0.05, 0.1, 0.2, 0.5, 1.0, 2.0]))  # the user's cap on the step length
+        e2e.vary_rare_parameters(rng, cfg)
         yield {"problem": ps, "cfg": cfg}
     for i in range(200 if tier == "quick" else 6000):
         ps = gen.rand_spec(rng, ("qp", "qp_quartic", "qp_softplus", "rosenbrock"), nmax=6, boxes=("none", "none", "boxed", "lower"), starts=("interior", "face"), condmax=1e2)
